@@ -107,14 +107,25 @@ func runC16(c *harness.Ctx, k int) {
 	}
 	qs = append(qs, q{"hex-recursive", "$..[" + spec.QuoteKeyHex(key, k%2 == 0, k%3) + "]", doc, hit})
 	// filter spelling: members of an array, one of which has k -> HIT
-	fdoc := []interface{}{map[string]interface{}{key: "HIT", "id": "yes"}}
+	// the label member must not collide with the key under test or one of its near misses (a generated key can be "id")
+	label := "id"
+	for taken := true; taken; {
+		taken = label == key
+		for _, s := range gen.NearMisses(key) {
+			taken = taken || s == label
+		}
+		if taken {
+			label += "_"
+		}
+	}
+	fdoc := []interface{}{map[string]interface{}{key: "HIT", label: "yes"}}
 	for i, s := range gen.NearMisses(key) {
 		if s != key {
-			fdoc = append(fdoc, map[string]interface{}{s: "HIT", "id": fmt.Sprintf("no%d", i)})
+			fdoc = append(fdoc, map[string]interface{}{s: "HIT", label: fmt.Sprintf("no%d", i)})
 		}
 	}
 	fq := &spec.Query{Op: spec.QCmp, Cmp: "==", LO: spec.Operand{P: &spec.Path{Root: '@', Steps: []spec.Step{nameStep(true)}}}, RO: gen.StrLit("HIT", false)}
-	qs = append(qs, q{"filter", render(&spec.Path{Root: '$', Steps: []spec.Step{{Kind: spec.KFilter, Q: fq}, {Kind: spec.KName, Key: "id"}}}, r.Intn(2) == 0), fdoc, []interface{}{"yes"}})
+	qs = append(qs, q{"filter", render(&spec.Path{Root: '$', Steps: []spec.Step{{Kind: spec.KFilter, Q: fq}, {Kind: spec.KName, Key: label}}}, r.Intn(2) == 0), fdoc, []interface{}{"yes"}})
 	if spec.DotOK(key) {
 		qs = append(qs,
 			q{"dot", "$." + spec.DotName(key), doc, hit},
